@@ -62,6 +62,39 @@ MetricBasis(sys, choice) ==
     [] sys = "cubic" -> {Sym(<<1,1,1,0,0,0>>)}
     [] OTHER -> {}
 
+(* The Laue group NAMED by the label, in the axes of the setting: closure of generators.  The label is what genhkl_all /   *)
+(* genhkl_unique use to choose the asymmetric unit, so the rotations of the table (with the inversion added) must be exactly *)
+(* this group - the order alone does not tell -3m1 from -31m (two-fold axes along [110] or along [1-10]).                      *)
+RECURSIVE Closure(_)
+Closure(S) == LET S2 == S \cup {MatMul(a, b) : a \in S, b \in S} IN IF S2 = S THEN S ELSE Closure(S2)
+Inv3   == MatNeg(I3)
+Rot2y  == <<<<-1,0,0>>, <<0,1,0>>, <<0,0,-1>>>>
+Rot2z  == <<<<-1,0,0>>, <<0,-1,0>>, <<0,0,1>>>>
+Rot2x  == <<<<1,0,0>>, <<0,-1,0>>, <<0,0,-1>>>>
+Rot4z  == <<<<0,-1,0>>, <<1,0,0>>, <<0,0,1>>>>
+Rot3zH == <<<<0,-1,0>>, <<1,-1,0>>, <<0,0,1>>>>          \* hexagonal axes: x,y,z -> -y,x-y,z
+Rot6zH == <<<<1,-1,0>>, <<1,0,0>>, <<0,0,1>>>>           \* x-y,x,z
+Rot2d  == <<<<0,1,0>>, <<1,0,0>>, <<0,0,-1>>>>           \* two-fold along [110]:   y,x,-z
+Rot2e  == <<<<0,-1,0>>, <<-1,0,0>>, <<0,0,-1>>>>         \* two-fold along [1-10]: -y,-x,-z
+Rot3d  == <<<<0,0,1>>, <<1,0,0>>, <<0,1,0>>>>            \* three-fold along [111]:  z,x,y
+LaueGenerators(l, choice) ==
+  CASE l = "-1" -> {Inv3}
+    [] l = "2/m" -> {Inv3, Rot2y}
+    [] l = "mmm" -> {Inv3, Rot2z, Rot2y}
+    [] l = "4/m" -> {Inv3, Rot4z}
+    [] l = "4/mmm" -> {Inv3, Rot4z, Rot2x}
+    [] l = "-3" /\ choice # "rhombohedral" -> {Inv3, Rot3zH}
+    [] l = "-3" /\ choice = "rhombohedral" -> {Inv3, Rot3d}
+    [] l \in {"-3m", "-3m1"} /\ choice # "rhombohedral" -> {Inv3, Rot3zH, Rot2d}
+    [] l = "-3m" /\ choice = "rhombohedral" -> {Inv3, Rot3d, Rot2e}
+    [] l = "-31m" -> {Inv3, Rot3zH, Rot2e}
+    [] l = "6/m" -> {Inv3, Rot6zH}
+    [] l = "6/mmm" -> {Inv3, Rot6zH, Rot2d}
+    [] l = "m-3" -> {Inv3, Rot3d, Rot2z}
+    [] l = "m-3m" -> {Inv3, Rot3d, Rot4z}
+    [] OTHER -> {}
+LaueGroup(l, choice) == Closure(LaueGenerators(l, choice) \cup {I3})
+
 PreservesMetric(R, E) == MatMul(Transpose(R), MatMul(E, R)) = E
 
 CentringTranslations(tb) == {o.t : o \in {p \in Ops(tb) : p.r = I3}}
@@ -82,13 +115,14 @@ Laws(tb) ==
     centring     |-> tb.nsymop = tb.nuniq * Cardinality(CentringTranslations(tb)),
     laue         |-> /\ LaueOrder(tb.Laue) > 0
                      /\ Cardinality(rots \cup {MatNeg(R) : R \in rots}) = LaueOrder(tb.Laue),
+    lauegroup    |-> rots \cup {MatNeg(R) : R \in rots} = LaueGroup(tb.Laue, tb.cell_choice),
     system       |-> tb.crystal_system \in SystemOfLaue(tb.Laue),
     metric       |-> /\ basis # {}
                      /\ \A R \in rots : \A E \in basis : PreservesMetric(R, E),
     number       |-> tb.own_no = tb.no /\ tb.no \in 1..230 ]
 
 LawNames == {"wellformed","count","identity","nodup","closed","inverses","nuniq","centring",
-             "laue","system","metric","number"}
+             "laue","lauegroup","system","metric","number"}
 Failed(tb) == LET l == Laws(tb) IN {nm \in LawNames : ~l[nm]}
 
 
